@@ -60,7 +60,12 @@ def _concrete_runs(check_grads, fun, modes, order, npr, array_arg=False):
             with warnings.catch_warnings():
                 warnings.simplefilter("ignore")
                 arg = float(npr.uniform(0.3, 2.0)) * (1 if trial % 2 else -1)
-                if array_arg:
+                if array_arg == "nested":
+                    u = lambda: float(npr.uniform(0.3, 2.0))
+                    arg = ({"z": complex(arg, u()), "b": u()}, -u())
+                    if trial % 3 == 0:  # the same leaves, the dict one level deeper / in a list
+                        arg = [arg[0], arg[1]]
+                elif array_arg:
                     arg = onp.array([arg, float(npr.uniform(0.3, 2.0))])
                 check_grads(fun, modes=list(modes), order=order)(arg)
             acc += 1
@@ -199,7 +204,21 @@ def prims():
         defjvp(foo, lambda t, ans, x: t * (6.0 * x + 2.0))
         return foo
 
+    def nested_dict_complex(defect):
+        # the argument is a tuple whose first entry is a DICT holding a complex leaf: the checker's covector /
+        # inner-product plumbing has to reach through both container levels
+        @primitive
+        def foo(z, s):
+            return z * z * s
+
+        k = {"none": 1.0, "sign": -1.0, "conj": 1.0}[defect]
+        dz = (lambda z, s: 2.0 * anp.conj(z) * s) if defect == "conj" else (lambda z, s: 2.0 * z * s * k)
+        defvjp(foo, lambda ans, z, s: lambda g: g * dz(z, s), lambda ans, z, s: lambda g: anp.real(g * z * z))
+        defjvp(foo, lambda t, ans, z, s: t * dz(z, s), lambda t, ans, z, s: t * z * z)
+        return lambda a: foo(a[0]["z"], a[1]) * a[0]["b"]
+
     return [
+        ("dict with a complex leaf nested in a tuple", nested_dict_complex, ({"z": enga.CSC, "b": SC}, SC), ["sign", "conj"], False),
         ("reverse rule through a helper primitive", helper_split, SC, [], False),
         ("dict-valued output, tangent keys in another order", dict_out, R(2), ["swapped"], False),
         ("scalar quadratic", scalar_quad, SC, ["factor", "sign"], True),
@@ -235,6 +254,9 @@ def items(tier):
     for d_ in ("nan-entry", "inf-entry"):
         for modes in (("rev",), ("fwd",)):
             out.append(("array quadratic (2,)", d_, modes, 1))
+    out.append(("dict with a complex leaf nested in a tuple", "none", ("rev",), 2))
+    out.append(("dict with a complex leaf nested in a tuple", "conj", ("rev",), 2))
+    out.append(("dict with a complex leaf nested in a tuple", "none", ("fwd", "rev"), 1))
     out.append(("reverse rule through a helper primitive", "none", ("fwd", "rev"), 2))
     out.append(("reverse rule through a helper primitive", "fwdhelper", ("fwd", "rev"), 2))
     # the checked argument selected through check_grads' argnum (it is a unary_to_nary operator): positive, negative, tuples
@@ -285,16 +307,17 @@ def check(it, tier):
     else:
         fun = mk(defect)
 
-    if (lab.startswith("reverse rule through a helper") and order == 2 and len(modes) == 2) or defect in ("nan-entry", "inf-entry"):
-        # order 2 with both modes forks into too many comparison paths for the symbolic executor (time limit): this one
-        # configuration is decided on 40 concrete float64 draws of the real check_grads instead (labelled as such)
+    if (lab.startswith("reverse rule through a helper") and order == 2 and len(modes) == 2) or defect in ("nan-entry", "inf-entry") or lab.startswith("dict with a complex leaf nested"):
+        # order 2 with both modes forks into too many comparison paths for the symbolic executor (time limit), and so does
+        # the nested dict-with-a-complex-leaf argument (8 symbolic reals): these configurations are decided on 40 concrete
+        # float64 draws of the real check_grads instead (labelled as such)
         import numpy.random as npr
 
         patched = npr.randn
         if getattr(patched, "_vf", False):
             npr.randn = onp.random.randn = patched._real  # real draws for this item
         try:
-            acc = _concrete_runs(check_grads, fun, modes, order, npr, array_arg=defect in ("nan-entry", "inf-entry"))
+            acc = _concrete_runs(check_grads, fun, modes, order, npr, array_arg="nested" if lab.startswith("dict with a complex leaf nested") else defect in ("nan-entry", "inf-entry"))
         finally:
             npr.randn = onp.random.randn = patched
         for trial in range(0):
